@@ -140,7 +140,7 @@ class Sem:
         a0 = call[2][0]
         if strip(a0)[0] == "mutref" or mutable:
             info = self.se.term_info.get(call[3][1], {})
-            la = info.get("locargs", (("?",),))[0]
+            la = (info.get("locargs") or (("?",),))[0]
             if la[0] == "ref":
                 return ("loc" if mutable else "val", la[1] if mutable else strip(self.se.call_old.get((call[3][:2], 0), a0)))
             return None
